@@ -20,6 +20,7 @@ thread_local! {
     static UNDECODABLE: RefCell<Vec<f64>> = RefCell::new(Vec::new());
     static AMBIGUOUS: Cell<u64> = Cell::new(0);
     static TOL_DECODED: Cell<u64> = Cell::new(0);
+    static RATIONALS: Cell<u64> = Cell::new(0);
 }
 
 #[derive(Copy, Clone, Debug, PartialEq, Eq)]
@@ -254,6 +255,48 @@ fn decode(x: f64) -> Fp {
                     }
                     return Ok(v);
                 }
+            }
+        }
+        // small rationals a/b converted from f64 (e.g. 1/m scale factors): continued-fraction reconstruction,
+        // accepted only when it reproduces x to within 2 ulp with a denominator <= 2^22
+        if x.is_finite() && x.abs() > 1e-9 && x.abs() < 1e9 {
+            let ax = x.abs();
+            let (mut h0, mut h1, mut k0, mut k1) = (0u64, 1u64, 1u64, 0u64);
+            let mut y = ax;
+            for _ in 0..40 {
+                let a = y.floor();
+                if a > 1e12 {
+                    break;
+                }
+                let a = a as u64;
+                let h2 = a.saturating_mul(h1).saturating_add(h0);
+                let k2 = a.saturating_mul(k1).saturating_add(k0);
+                if k2 > (1 << 22) || h2 > (1 << 40) {
+                    break;
+                }
+                h0 = h1;
+                h1 = h2;
+                k0 = k1;
+                k1 = k2;
+                let approx = h1 as f64 / k1 as f64;
+                if (approx - ax).abs() <= 2.0 * f64::EPSILON * ax && k1 > 1 && k1 % pr != 0 {
+                    RATIONALS.with(|c| c.set(c.get() + 1));
+                    let mut v = mulmod(h1 % pr, powmod(k1 % pr, pr - 2, pr), pr);
+                    if x < 0.0 {
+                        v = (pr - v) % pr;
+                    }
+                    // a grid value this close would have been found in the table; make sure no grid value is near
+                    let lo = f.sorted.partition_point(|e| e.0 < x - 1e-12);
+                    if f.sorted[lo..].iter().take_while(|e| e.0 <= x + 1e-12).next().is_none() {
+                        return Ok(v);
+                    }
+                    break;
+                }
+                let frac = y - a as f64;
+                if frac < 1e-15 {
+                    break;
+                }
+                y = 1.0 / frac;
             }
         }
         // tolerance fallback (survives refactorings of the twiddle expression): every candidate within 1e-13 must agree
